@@ -186,10 +186,14 @@ impl Router {
                                 self.handlers.insert(new_receiver_id, handler);
                             },
                             RouterMsg::Shutdown(sender) => {
+                                // Stop for good: drop every registered handler (and with it
+                                // whatever it owns) before acknowledging, so that nothing is
+                                // invoked or kept alive once `shutdown()` has returned.
+                                self.handlers.clear();
                                 sender
                                     .send(())
                                     .expect("Failed to send comfirmation of shutdown.");
-                                break;
+                                return;
                             },
                         }
                     },
